@@ -24,6 +24,7 @@ that only *use* the printer model treat a deviation as a stale model
 """
 from __future__ import annotations
 
+import ast
 import itertools
 
 from engine.common import AnalysisError
@@ -323,3 +324,73 @@ def token_rule(report, index, M, rid, violation=True):
     report.count('%s: evaluations of Token.__call__' % rid,
                  sum(x[4] for x in res))
     return res
+
+
+def deferrable_rule(report, index, rid, only=None):
+    """Resolve / Literal / LineComment / BlockComment hand back exactly what
+    the dispatcher's handler returns, whatever its spelling, and the node's
+    own value (nothing for comments) without a handler: evaluated from
+    ruletypes.py over a domain of handler results"""
+    from engine.absint import Evaluator, Obj, Raised
+    rt = index.need('calmjs.parse.ruletypes')
+    r = report.rule(rid, 'deferrable rules pass the handler result through '
+                    'unchanged (decision table by evaluation)',
+                    floor=4 if only else 30)
+    domain = {
+        'Resolve': ('a', 'Z', '_', '$', '_a', '$0', 'a_b', 'ab', 'Z9',
+                    '\u00e9', '__', '$$', 'aaaaaaaaaaaaaaaaaaaaaaaaaaaaaaaa'),
+        'Literal': ('"s"', "'a b'", '1', '0x1F', '/re/g', '""', "'\\n'",
+                    '1e3', 'true'),
+        'LineComment': ('//c', '// c  ', '//', '//\t'),
+        'BlockComment': ('/*c*/', '/**/', '/* a\n * b */'),
+    }
+    own, bases = {}, {}
+    for name, node in rt.classes.items():
+        own[name] = rt.class_methods(name)
+        bases[name] = [ast.unparse(b).split('.')[-1] for b in node.bases]
+
+    def methods_of(cls):
+        out = {}
+        todo = [cls]
+        while todo:
+            c = todo.pop(0)
+            for k, v in own.get(c, {}).items():
+                out.setdefault(k, v)
+            todo.extend(bases.get(c, []))
+        return out
+    for cls, values in sorted(domain.items()):
+        if only and cls not in only:
+            continue
+        if cls not in rt.classes:
+            raise AnalysisError('ruletypes.%s vanished' % cls)
+        ms = methods_of(cls)
+        call = ms.get('__call__')
+        if call is None:
+            raise AnalysisError('ruletypes.%s has no __call__' % cls)
+        ncls = 'Identifier' if cls == 'Resolve' else (
+            'String' if cls == 'Literal' else cls)
+        for v in values + (None,):
+            node = Obj(ncls, value='original')
+            rule_obj = Obj(cls)
+            if v is None:
+                disp = Obj('Dispatcher', deferrable=(
+                    'pyfunc', lambda r_: NotImplemented))
+                want = 'original' if cls in ('Resolve', 'Literal') else None
+            else:
+                disp = Obj('Dispatcher', deferrable=('pyfunc', lambda r_, v=v: (
+                    'pyfunc', lambda d, n, v=v: v)))
+                want = v
+            ev = Evaluator(rt, cls, ms, {}, is_subclass=lambda c, b: c == b,
+                           max_steps=20000)
+            try:
+                got, _ = ev.call(call, [disp, node], self_obj=rule_obj)
+            except Raised as e:
+                got = 'raises %s' % e.text
+            r.check(got == want, '%s handler result %s' % (
+                cls, 'absent' if v is None else repr(v)),
+                '%s()(dispatcher, node) with the handler %s' % (
+                    cls, 'absent' if v is None else 'returning %r' % v),
+                'yields %r, expected %r: what the handler decided is not '
+                'what is printed' % (got, want),
+                where='ruletypes.py:%s.__call__' % cls)
+    return r
